@@ -49,3 +49,11 @@ Definition check_xtb_atoms (line : string) (idxs : list Z) : bool :=
 
 (* the fixed-point writer alone (used for trajectory / energy fields and as a translator self-check) *)
 Definition check_fmt (d : nat) (q : Q) (text : string) : bool := str_eqb (fmt_fixed d q) (s2l text).
+
+(* NWChem: the multiplicity lines the control-flow model predicts = the `mult` / `nopen` lines found in the file
+   (compared as counts: the trailing block is inserted near the top of the keyword list) *)
+Definition count_kind (mult : bool) (l : list lkind) : nat :=
+  List.length (filter (fun k => match k, mult with LMult, true => true | LNopen, false => true | _, _ => false end) l).
+Definition check_nw_spin (task_scf : bool) (ks : list nwkw) (n_mult n_nopen : nat) : bool :=
+  let l := nw_spin_lines nwchem_tail_guard task_scf ks in
+  Nat.eqb (count_kind true l) n_mult && Nat.eqb (count_kind false l) n_nopen.
